@@ -1,7 +1,9 @@
 (* ScaleProofs.v -- lemmas about the scale selection and the pure scaling functions of model/Scale.v that need no
    real-number reasoning: finite case analysis over the 17 legal precisions (exact Z / Q arithmetic, vm_compute),
    list lemmas. The binary64 exactness results (Flocq) are in ScaleFloat.v. *)
-From Clip Require Import base.Geom base.FloatModel model.Scale.
+From Clip Require Import base.Geom.
+From Clip Require Import base.FloatModel.
+From Clip Require Import model.Scale.
 From Coq Require Import ZArith List Floats QArith Qabs Bool Lia.
 Import ListNotations.
 Local Open Scope Z_scope.
